@@ -222,7 +222,11 @@ def check(ctx):
         ps = summarise(ctx, fn, policy=default_policy, oracle=val)
         outs = {('raise:' + p.state.exc[1]) if p.outcome == 'raise' else 'ok' for p in ps}
         want = {'raise:ValueError'} if exp == 'raise' else {'ok'}
-        if len(outs) > 1 and not val.unknown and exp == 'raise':
+        by_conv = {}
+        for p in ps:
+            by_conv.setdefault(getattr(p, 'convention', None), set()).add(('raise:' + p.state.exc[1]) if p.outcome == 'raise' else 'ok')
+        conv_split = len(by_conv) > 1 and all(len(o_) == 1 for o_ in by_conv.values()) and len({next(iter(o_)) for o_ in by_conv.values()}) > 1
+        if len(outs) > 1 and not val.unknown and exp == 'raise' and conv_split:
             # nothing else was consulted, and still one way of making the call is accepted (arguments handed over by keyword instead of by position, say)
             ctx.violation('C12.S3', 'an end earlier than the start is rejected with ValueError', fn.site(),
                           'outcomes %s: with the same ordering of the bounds one way of calling the constructor is refused and another is accepted' % sorted(outs), key='C12.S3|%s' % rel)
@@ -249,6 +253,16 @@ def check(ctx):
             if not unk:
                 ctx.undecided('C12.S3', 'construction is decided by the ordering of start and end alone', fn.site(),
                               'end %s start is tested through %s; at the distances %s the outcome is the stated one, which is a table, not a proof' % (rel, sorted(set(val.unknown))[0][:100], [d_ for d_, _ in tab]))
+                continue
+        if len(outs) > 1 and exp == 'ok' and not val.unknown:
+            # every test on the way was decided by the ordering, and still some path refuses with a raise the package itself wrote (after catching an error of a
+            # lookup, say): the bounds are in order and the constructor has a way of saying they are not
+            from ..lib import read_marker
+            own_ = [p for p in ps if p.outcome == 'raise' and p.state.exc and p.state.exc[0] == 'raise' and p.state.exc[1] == 'ValueError' and read_marker(ctx, p)]
+            if own_:
+                ctx.violation('C12.S3', 'an end %s the start is accepted' % {'=': 'equal to', '>': 'later than'}[rel], own_[0].state.exc[2],
+                              'READ: with the bounds in order a path of the constructor reaches its own `raise ValueError` (%s), on no other condition than an error caught on the way'
+                              % own_[0].state.exc[2], key='C12.S3|%s' % rel)
                 continue
         if len(outs) > 1:
             # the outcome depends on something besides the ordering of the two bounds (e.g. whether the computed range is empty): not decided here
